@@ -1348,6 +1348,7 @@ static void bus_teardown (void)
 }
 
 /* RESET <config-file> <socket-path> */
+static int bus_flags = BUS_CONTEXT_FLAG_NONE;    /* BUSFLAGS <n>: flags of the NEXT RESETs (16 = --systemd-activation) */
 static void cmd_reset (int argc, char **argv)
 {
   DBusString cfg; DBusError err;
@@ -1363,7 +1364,7 @@ static void cmd_reset (int argc, char **argv)
   if (argc > 4) { bus_verif_unique_name_seed_major = atoi (argv[3]); bus_verif_unique_name_seed_minor = atoi (argv[4]); }
   dbus_error_init (&err);
   _dbus_string_init_const (&cfg, argv[1]);
-  bus = bus_context_new (&cfg, BUS_CONTEXT_FLAG_NONE, NULL, NULL, NULL, &err);
+  bus = bus_context_new (&cfg, (BusContextFlags) bus_flags, NULL, NULL, NULL, &err);
   if (!bus) { ob_printf (&out, "ERR %s: %s", err.name, err.message); dbus_error_free (&err); return; }
   ob_puts (&out, "OK");
 }
@@ -1755,6 +1756,7 @@ int main (int argc, char **argv)
       else if (!strcmp (args[0], "OOMCONFIG")) cmd_oomconfig (n, args);
       else if (!strcmp (args[0], "VALENUM")) cmd_valenum (n, args);
       else if (!strcmp (args[0], "RESET")) cmd_reset (n, args);
+      else if (!strcmp (args[0], "BUSFLAGS")) { bus_flags = n > 1 ? atoi (args[1]) : 0; ob_printf (&out, "OK %d", bus_flags); }
       else if (!strcmp (args[0], "RELOAD")) cmd_reload ();
       else if (!strcmp (args[0], "CONNECT")) cmd_connect (n, args);
       else if (!strcmp (args[0], "RAWCONNECT")) cmd_rawconnect (n, args);
